@@ -114,6 +114,30 @@ CHECKS['C12'] = dict(
     technique='Coq proof over generated tables + model/implementation correspondence + differential traceback/marker oracle',
     design='4/C12')
 
+CHECKS['C14'] = dict(
+    text='Proved for all argument values and any arity: every supported builtin whose overload (parameter list and forwarding chain '
+         'generated from py_builtins.py on every run) passes the per-run symbolic conformance check forwards exactly one identically '
+         'bound call of the same builtin, in any keyword order; what the frame search returns; super() finds the function frame through '
+         'any number of generated body frames. Tied by exhaustive call-shape correspondence with recorder builtins (~2100 shapes), '
+         'bind vs CPython binding, documented signatures vs real builtins, find_frame vs real stacks; judged by a value/laziness/stdout '
+         'oracle. Partial: eval/locals proved only for calls directly in the function body (refuted inside functionalised bodies = known '
+         'finding); the builtins\' own behaviour is CPython\'s.',
+    note=NOTE_BASE + 'Hand-written documented signatures and bind are validated against CPython every run; registries empty; user '
+         'values never equal UNSPECIFIED; frames are modelled by their f_locals only.',
+    technique='generated overload tables + symbolic case-split proofs + exhaustive shape correspondence + differential oracle',
+    design='4/C14')
+CHECKS['C15'] = dict(
+    text='Kernel-checked theorems over a character-level model of _unfold_continuations and dedent_block: dedenting keeps every '
+         'token, string byte, comment and newline and removes exactly the block indentation, for all sources satisfying a decidable '
+         'guard; over rules generated from _parse_lambda, selection never returns a lambda other than the creator. Tied by a generated-'
+         'rule discipline re-checked each run and ~2000 Coq-evaluated correspondence cases; the specification lexer is validated '
+         'against tokenize; oracle: ast.dump(parse_entity(f)) vs the node CPython compiled, over generated modules. Three guard regions '
+         '(backslash-newline in strings, after comments, gluing tokens) are known findings with refuted witnesses.',
+    note=NOTE_BASE + 'CPython tokenize / inspect.getblock / linecache / ast.parse are the oracle, not modelled beyond PyLex; f-strings '
+         'lexed as plain strings; ASCII text with space and tab only.',
+    technique='Coq lexical state machine + simulation proofs; generated decision rules; differential oracle against CPython AST',
+    design='4/C15')
+
 NOT_YET = {}
 
 
